@@ -1731,6 +1731,7 @@ class BADS:
 
         else:
             # Search set is empty
+            u_search = self.u.copy()
             y_search = self.yval
             f_mu_search = self.fval
             f_sd_search = 0
